@@ -21,7 +21,7 @@
    of every case.  The dimension name of bounds is kept since C01-fix3-3 (superseded code: Refuted.v,
    C01_bounds_dimension_name_old_refuted). *)
 From CfdmV Require Import Common.Base C01.Model C01.Lemmas C01.RtStrings C01.RtWriter C01.RtSteps C01.RtAxis
-  C01.RtPhases C01.RtSummary C01.RtReader C01.Run C01.RtGuard C01.RtNames.
+  C01.RtPhases C01.RtSummary C01.RtReader C01.Run C01.RtGuard C01.RtNames C01.RtClass.
 
 Open Scope string_scope.
 Open Scope list_scope.
@@ -74,10 +74,11 @@ Theorem C01_char_codec_trailing_nul_refuted :
 Proof. exact char_codec_trailing_nul_refuted. Qed.
 Print Assumptions C01_char_codec_trailing_nul_refuted.
 
-(* fmt, compress, shuffle, fletcher32, endian, hdf5_chunks do not occur in the data-model mapping:
-   two option records that agree on `coordinates' give the same dataset skeleton. *)
+(* compress, shuffle, fletcher32, endian, hdf5_chunks do not occur in the data-model mapping, and fmt / string
+   only through "are strings stored as netCDF strings" (vlen): two option records that agree on `coordinates' and
+   on vlen give the same dataset skeleton. *)
 Theorem C01_options_irrelevant :
-  forall o o' f, o_coordinates o = o_coordinates o' -> write_skel o f = write_skel o' f.
+  forall o o' f, o_coordinates o = o_coordinates o' -> vlen o = vlen o' -> write_skel o f = write_skel o' f.
 Proof. exact options_irrelevant. Qed.
 Print Assumptions C01_options_irrelevant.
 
@@ -177,3 +178,58 @@ Theorem C01_roundtrip_checked :
     (forall c, In c (f_cons f) <-> In c (expected_cons f)).
 Proof. exact roundtrip_checked. Qed.
 Print Assumptions C01_roundtrip_checked.
+
+(* ------------------------------------------------------------------ third pass: the reader's classification rules *)
+
+(* A 1-d auxiliary coordinate on a size-1 axis that the data do not span is written as a scalar coordinate variable
+   (for ANY writer state, options, skeleton): one new variable, named in `coordinates', registered for its axis, and
+   the reader's rule for scalar coordinate variables (numeric -> dimension coordinate, char or netCDF string ->
+   auxiliary coordinate) classifies it as an auxiliary coordinate exactly when it is string valued - under every
+   format and string option.  So string-valued scalar coordinates keep their construct type; numeric auxiliary ones
+   do not (open finding unspanned-size1-axis:auxiliary-becomes-dimension-coordinate). *)
+Theorem C01_scalar_coordinate_classification :
+  forall o f w c a, scalar_axis f c = Some a ->
+  exists v, In v (w_vars (write_aux o f w c)) /\ In (v_name v) (w_coords (write_aux o f w c)) /\
+    nat_assoc a (w_axscalar (write_aux o f w c)) = Some (v_name v) /\
+    scalar_class (v_kind v) = match c_strlen c with Some _ => CAux | None => CDim end.
+Proof. exact scalar_coordinate_classification. Qed.
+Print Assumptions C01_scalar_coordinate_classification.
+
+(* the same through the whole model, for the six formats x string in {T, F}: a string-valued auxiliary coordinate
+   and a numeric dimension coordinate, each alone on a size-1 axis the data do not span, are read back as an
+   auxiliary and a dimension coordinate on axes of their own *)
+Theorem C01_scalar_coordinates_option_grid :
+  forall o, In o option_grid ->
+  types_read o sc_skel = [[(CDim, "longitude", ["longitude"]); (CDim, "height", ["@height"]);
+                           (CAux, "platform_name", ["@platform_name"])]].
+Proof. exact scalar_grid. Qed.
+Print Assumptions C01_scalar_coordinates_option_grid.
+
+(* The names of the `coordinates' attribute that are read as auxiliary / scalar coordinates are exactly those that
+   are not IMPLIED dimensions of the data variable; a dimension replaced by a list dimension (compression by
+   gathering) is implied, so its coordinate variable is never read a second time as an auxiliary coordinate -
+   whatever the attribute lists (write option coordinates=True). *)
+Theorem C01_coordinates_skip_implied_dimensions :
+  forall d v,
+  (forall n, In n (coord_candidates d v) <-> In n (tokens "coordinates" v) /\ ~ In n (implied d (v_dims v))) /\
+  (forall x l n, In x (v_dims v) -> compress_of d x = Some l -> In n l -> ~ In n (coord_candidates d v)) /\
+  (forall x, In x (v_dims v) -> compress_of d x = None -> ~ In x (coord_candidates d v)).
+Proof.
+  intros d v. split; [intros n; apply coord_candidates_spec|split].
+  - intros x l n. apply implied_dimension_not_candidate.
+  - intros x. apply own_dimension_not_candidate.
+Qed.
+Print Assumptions C01_coordinates_skip_implied_dimensions.
+
+(* a gathered field as cfdm writes it with coordinates=True: tas(time, landpoint), landpoint:compress = "lat lon",
+   coordinates = "time lat lon aux0": read as data over (time, lat, lon) with three dimension coordinates and the
+   gathered auxiliary coordinate over (lat, lon) - nothing else *)
+Theorem C01_gathered_coordinates_example :
+  implied gathered_ds (v_dims gathered_tas) = ["time"; "lat"; "lon"] /\
+  coord_candidates gathered_ds gathered_tas = ["aux0"] /\
+  coord_candidates_own gathered_ds gathered_tas = ["lat"; "lon"; "aux0"] /\
+  map (fun r => (rs_data_axes r, map (fun c => (r_type c, r_ncvar c, r_axes c)) (rs_cons r))) (read_skel gathered_ds) =
+    [(["time"; "lat"; "lon"], [(CDim, "time", ["time"]); (CDim, "lat", ["lat"]); (CDim, "lon", ["lon"]);
+                               (CAux, "aux0", ["lat"; "lon"])])].
+Proof. exact gathered_example. Qed.
+Print Assumptions C01_gathered_coordinates_example.
